@@ -32,8 +32,8 @@ func runC04(e *Engine, tier Tier) *PropRun {
 			return o.Kind == "post" || o.Kind == "inv-init" || o.Kind == "inv-pres"
 		},
 		Level:       "other",
-		Explanation: "Two clauses of the property, proved for every input. (1) Faithful reading of operators and punctuation: every token readPunctuation builds itself (no word, not a string literal, no comment skipped on the way, not the content of a dollar-quoted string, not a named placeholder) has as its value exactly the bytes the cursor moved over - one obligation per return site (about 175), so a branch that consumes more or fewer bytes than the text it reports fails its obligation. (2) A successful Tokenize / TokenizeContext returns a non-empty stream whose last token is the end-of-input marker and none of whose earlier tokens is (quantified postcondition; quantified invariant of the main loop over the token slice, with the append semantics of the slice model).",
-		NotCovered:  []string{"verbatim reading of identifiers, numbers, string literals and named placeholders (their values are decoded or assembled by other readers)", "kind and decoded value of each lexical element (maximal munch, number grammar, escape decoding): functional reader contracts against a lexical spec are not built", "comments captured with their exact text", "layout independence (separators, keyword case)", "compound-keyword look-ahead across whitespace vs comments"},
+		Explanation: "Three clauses of the property, proved for every input. (0) A block comment ends at the first terminator after its opening: loop invariant of the comment-skipping loop of readPunctuation, quantified over the bytes already passed (no \"*/\" among them; a '*' just passed is not followed by '/'), discharged with the byte-level facts of the utf8.DecodeRune contract. (1) Faithful reading of operators and punctuation: every token readPunctuation builds itself (no word, not a string literal, no comment skipped on the way, not the content of a dollar-quoted string, not a named placeholder) has as its value exactly the bytes the cursor moved over - one obligation per return site (about 175), so a branch that consumes more or fewer bytes than the text it reports fails its obligation. (2) A successful Tokenize / TokenizeContext returns a non-empty stream whose last token is the end-of-input marker and none of whose earlier tokens is (quantified postcondition; quantified invariant of the main loop over the token slice, with the append semantics of the slice model).",
+		NotCovered:  []string{"verbatim reading of identifiers, numbers, string literals and named placeholders (their values are decoded or assembled by other readers)", "kind and decoded value of each lexical element (maximal munch, number grammar, escape decoding): functional reader contracts against a lexical spec are not built", "comments captured with their exact text beyond the end of block comments (line comments, nesting)", "layout independence (separators, keyword case)", "compound-keyword look-ahead across whitespace vs comments"},
 	}
 }
 
